@@ -118,7 +118,7 @@ def main():
             na.append({"property_id": i, "reason": PENDING.get(i, "check not built yet in this session (work in progress; see DESIGN.md section 4 for the planned generator and oracle)")})
     m = {
         "version": 1,
-        "setup_cmd": "cd /verif/harness && CARGO_NET_OFFLINE=true cargo build --release --offline && cd /repo && CARGO_NET_OFFLINE=true CARGO_TARGET_DIR=/verif/target/repo PYO3_PYTHON=/opt/veriftools/pyvenv/bin/python cargo build --offline -p sudachi-cli -p sudachipy",
+        "setup_cmd": "cd /verif/harness && CARGO_NET_OFFLINE=true CARGO_TARGET_DIR=/verif/target cargo build --release --offline && cd /repo && CARGO_NET_OFFLINE=true CARGO_TARGET_DIR=/verif/target/repo PYO3_PYTHON=/opt/veriftools/pyvenv/bin/python cargo build --offline -p sudachi-cli -p sudachipy",
         "hooks": {
             "guard": "cargo feature `verif` of crate sudachi (sudachi/Cargo.toml [features] verif = [])",
             "enable": "the harness depends on sudachi = { path = \"/repo/sudachi\", features = [\"verif\"] }; every ./check run starts with cargo build of the harness, which rebuilds /repo/sudachi from its working tree",
